@@ -11,18 +11,22 @@
    thorough tier), one decoration each: the program must not build ("it is illegal for a package to import itself, directly or indirectly").
    Two states per program.  Invariants:
      ImplMeetsRef   the calls that emitPackage's `inits` construction makes main.main do are the initialisation
-                    of the packages in one of the orders the specification allows (PiOrders)
-     RefSane        sanity of the reference: in every allowed order every variable initialiser and init function
-                    runs exactly once, the Go 1.21 import-path order is one of the allowed orders, and the
-                    legacy construction (before commit 210747a) does NOT meet the reference on the programs
+                    of the packages in the order of the specification (Go 1.21: PiPathOrder).  VIOLATED for the
+                    programs with independent packages whose import declarations are not in import-path order:
+                    diagnostic (model_counterexample), the verdict is decided on the real runs
+     ImplDeclOrder  what the construction does do: the initialisation of the packages, each complete and once,
+                    in the order of the import declarations (PiDeclOrder) - a topological order of the imports
+     RefSane        sanity of the reference: in every topological order every variable initialiser and init function
+                    runs exactly once; the Go 1.21 order and the declaration order are topological orders; the
+                    legacy construction (before commit 210747a) is not a topological order on the programs
                     where its three defects show (an imported package with variables and init functions, main with
                     variables and an imported package that prints, a package with variables reached twice);
-                    the predicate the judge evaluates (PiAccepts: one run of the reference in the order read off
-                    the observation) is the membership in the set of allowed outputs
-     ParserMeetsRef / ParserAncestorsOnlyMeetsRef   ParseProgram's import stack reports a cycle exactly for the
-                    graphs that have one - as the code is (any entry of the stack is taken for an ancestor), and
-                    when only the entries being processed count
-   Exports the programs; g121 = the output under the Go 1.21 order (diagnostic only, see PkgInit.tla). *)
+                    PiAccepts (one run of the reference in the order read off the observation) is the membership
+                    in the set of outputs of the topological orders
+     ParserMeetsRef ParseProgram's import stack (only the entries being processed are ancestors) reports a cycle
+                    exactly for the graphs that have one (an ASSUME says that the search among all the
+                    entries, the code before 984b438, does report a cycle on some acyclic graph)
+   Exports the programs; g121 = the output under the Go 1.21 order (the check only counts with it). *)
 EXTENDS PkgInit, PkgInitCfg, TLC, Json, SequencesExt
 
 RECURSIVE PiArr(_)      \* the sequences without repetition over the subsets of S
@@ -74,12 +78,14 @@ VARIABLES c, run
 Init == c \in 1..Len(Cases) /\ run = FALSE
 Next == ~run /\ run' = TRUE /\ c' = c
 G(k) == [imps |-> Cases[k].imps, vars |-> Cases[k].vars, inits |-> Cases[k].inits]
-MeetsRef(g) == PiUnitsOf(PiImplCalls(g, FALSE)) \in {PiRefUnits(g, o) : o \in PiOrders(g)}
+MeetsRef(g) == PiUnitsOf(PiImplCalls(g, FALSE)) = PiRefUnits(g, PiPathOrder(g))
 ImplMeetsRef == run /\ PiAcyclic(Cases[c].imps) => MeetsRef(G(c))
-\* ParseProgram reports an import cycle exactly when there is one: with the stack search as it is in the code
-\* (every entry counts) and with a search among the entries that have a tree only
-ParserMeetsRef == run => (PiParserReportsCycle(G(c), FALSE) <=> ~PiAcyclic(Cases[c].imps))
-ParserAncestorsOnlyMeetsRef == run => (PiParserReportsCycle(G(c), TRUE) <=> ~PiAcyclic(Cases[c].imps))
+DeclOrder(g) == PiUnitsOf(PiImplCalls(g, FALSE)) = PiRefUnits(g, PiDeclOrder(g)) /\ PiDeclOrder(g) \in PiOrders(g)
+ImplDeclOrder == run /\ PiAcyclic(Cases[c].imps) => DeclOrder(G(c))
+\* ParseProgram reports an import cycle exactly when there is one (the search among the entries that have a tree)
+ParserMeetsRef == run => (PiParserReportsCycle(G(c), TRUE) <=> ~PiAcyclic(Cases[c].imps))
+\* the search among all the entries, as it was before 984b438, reports a cycle on some acyclic graph
+ASSUME \E s \in 1..Len(Shapes) : PiParserReportsCycle([imps |-> Shapes[s]], FALSE)
 \* the programs on which the construction before 210747a is wrong for sure
 LegacyShows(g) == \/ \E i \in PiPresent(g) \ {PiMain(g)} : Len(g.vars[i]) > 0 /\ Len(g.inits[i]) > 0
                   \/ Len(g.vars[PiMain(g)]) > 0 /\ \E i \in PiPresent(g) \ {PiMain(g)} : Len(g.vars[i]) + Len(g.inits[i]) > 0
@@ -89,7 +95,7 @@ Sane(g) == /\ PiPathOrder(g) \in PiOrders(g)
                  Len(ev) = Cardinality(PiExpectedTags(g)) /\ PiRange(ev) = PiExpectedTags(g)
            /\ PiImplOut(g, FALSE) \in PiRefOuts(g)
            /\ LegacyShows(g) => PiImplOut(g, TRUE) \notin PiRefOuts(g)
-           \* the judged predicate is the membership in PiRefOuts
+           \* PiAccepts is the membership in PiRefOuts
            /\ \A out \in PiRefOuts(g) \cup {PiImplOut(g, FALSE), PiImplOut(g, TRUE)} : PiAccepts(g, out) <=> out \in PiRefOuts(g)
 RefSane == run /\ PiAcyclic(Cases[c].imps) => Sane(G(c))
 =============================================================================
